@@ -9,6 +9,7 @@ package PKGNAME
 // with what the held count at the time of the attempt demands.
 
 import (
+	"context"
 	"fmt"
 	"sort"
 	"strings"
@@ -26,10 +27,11 @@ type vfC37Item struct {
 }
 
 type vfC37Step struct {
-	Kind  int // 0 client subscribe, 1 complete parked callback, 2 server-side subscribe, 3 client unsubscribe, 4 server-side unsubscribe, 5 burst
+	Kind  int // 0 client subscribe, 1 complete parked callback, 2 server-side subscribe, 3 client unsubscribe, 4 server-side unsubscribe, 5 burst, 6 next page of a paginating map subscribe
 	Ch    int
 	Map   bool
 	Async bool
+	Live  bool // map subscribe: direct-to-live join instead of state pagination
 	Idx   int
 	Err   bool
 	Items []vfC37Item
@@ -38,8 +40,9 @@ type vfC37Step struct {
 }
 
 type vfC37Chan struct {
-	Len int
-	MB  bool
+	Len  int
+	MB   bool
+	Keys int // entries in the channel's map state (a map subscribe pages through them)
 }
 
 type vfC37Case struct {
@@ -49,6 +52,7 @@ type vfC37Case struct {
 	Proto       ProtocolType
 	Chans       []vfC37Chan
 	ConnectSubs int
+	Page        int // page size of map subscribes
 	Steps       []vfC37Step
 	FinalOrder  []int
 }
@@ -81,7 +85,7 @@ func (c vfC37Case) names() []string {
 func (s vfC37Step) String() string {
 	switch s.Kind {
 	case 0:
-		return fmt.Sprintf("sub(ch%d map=%v async=%v)", s.Ch, s.Map, s.Async)
+		return fmt.Sprintf("sub(ch%d map=%v live=%v async=%v)", s.Ch, s.Map, s.Live, s.Async)
 	case 1:
 		return fmt.Sprintf("complete(%d err=%v)", s.Idx, s.Err)
 	case 2:
@@ -90,6 +94,8 @@ func (s vfC37Step) String() string {
 		return fmt.Sprintf("unsub(ch%d)", s.Ch)
 	case 4:
 		return fmt.Sprintf("serverUnsub(ch%d)", s.Ch)
+	case 6:
+		return fmt.Sprintf("page(%d)", s.Idx)
 	}
 	it := make([]string, len(s.Items))
 	for i, x := range s.Items {
@@ -107,8 +113,12 @@ func (c vfC37Case) String() string {
 	for i, s := range c.Steps {
 		st[i] = s.String()
 	}
-	return fmt.Sprintf("limit=%d maxLen=%d queueMax=%d proto=%s chans=%q connectSubs=%d steps=[%s] finalOrder=%v", c.Limit, c.MaxLen, c.QueueMax, c.Proto,
-		c.names(), c.ConnectSubs, strings.Join(st, " "), c.FinalOrder)
+	keys := make([]int, len(c.Chans))
+	for i, ch := range c.Chans {
+		keys[i] = ch.Keys
+	}
+	return fmt.Sprintf("limit=%d maxLen=%d queueMax=%d proto=%s chans=%q keys=%v page=%d connectSubs=%d steps=[%s] finalOrder=%v", c.Limit, c.MaxLen, c.QueueMax,
+		c.Proto, c.names(), keys, c.Page, c.ConnectSubs, strings.Join(st, " "), c.FinalOrder)
 }
 
 func vfC37Gen(rt *rapid.T) vfC37Case {
@@ -117,11 +127,13 @@ func vfC37Gen(rt *rapid.T) vfC37Case {
 	c.MaxLen = rapid.IntRange(1, 16).Draw(rt, "maxLen")
 	c.QueueMax = rapid.SampledFrom([]int{300, 400, 512, 700, 1000, 1500}).Draw(rt, "queueMax")
 	c.Proto = rapid.SampledFrom([]ProtocolType{ProtocolTypeJSON, ProtocolTypeProtobuf}).Draw(rt, "proto")
+	c.Page = rapid.SampledFrom([]int{1, 2}).Draw(rt, "page")
 	nch := c.Limit + 3
 	for i := 0; i < nch; i++ {
 		d := rapid.SampledFrom([]int{-2, -1, -1, 0, 0, 0, 0, 1, 2}).Draw(rt, "lenDelta")
 		mb := rapid.IntRange(0, 3).Draw(rt, "mb") == 0
-		c.Chans = append(c.Chans, vfC37Chan{Len: c.MaxLen + d, MB: mb})
+		keys := rapid.SampledFrom([]int{3, 0, 2, 5, 1, 4}).Draw(rt, "keys")
+		c.Chans = append(c.Chans, vfC37Chan{Len: c.MaxLen + d, MB: mb, Keys: keys})
 	}
 	switch rapid.IntRange(0, 11).Draw(rt, "connectKind") {
 	case 0:
@@ -133,7 +145,7 @@ func vfC37Gen(rt *rapid.T) vfC37Case {
 	}
 	n := rapid.IntRange(2, 16).Draw(rt, "nsteps")
 	for i := 0; i < n; i++ {
-		k := rapid.SampledFrom([]int{0, 0, 0, 0, 0, 0, 1, 1, 1, 2, 2, 3, 4, 5, 5}).Draw(rt, "kind")
+		k := rapid.SampledFrom([]int{0, 0, 0, 6, 0, 0, 1, 0, 1, 2, 1, 2, 3, 4, 5, 5, 6}).Draw(rt, "kind")
 		if i < c.Limit && rapid.IntRange(0, 3).Draw(rt, "frontload") != 0 {
 			k = 0 // fill the slots first so that later attempts meet a full connection with subscribes in flight
 		}
@@ -141,8 +153,11 @@ func vfC37Gen(rt *rapid.T) vfC37Case {
 		switch k {
 		case 0:
 			s.Ch = rapid.IntRange(0, nch-1).Draw(rt, "ch")
-			s.Map = rapid.IntRange(0, 3).Draw(rt, "map") == 0
+			s.Map = rapid.SampledFrom([]bool{false, true, false}).Draw(rt, "map")
+			s.Live = s.Map && rapid.SampledFrom([]bool{false, false, true}).Draw(rt, "live")
 			s.Async = rapid.IntRange(0, 3).Draw(rt, "async") != 0
+		case 6:
+			s.Idx = rapid.IntRange(0, 3).Draw(rt, "pidx")
 		case 1:
 			s.Idx = rapid.IntRange(0, 5).Draw(rt, "idx")
 			s.Err = rapid.IntRange(0, 3).Draw(rt, "err") == 0
@@ -184,7 +199,7 @@ func vfC37Run(t *testing.T, cs vfC37Case, out *vfC37Out, isKnown func(string) bo
 		names := cs.names()
 		cfg := Config{ClientChannelLimit: cs.Limit, ChannelMaxLength: cs.MaxLen, ClientQueueMaxSize: cs.QueueMax,
 			Map: MapConfig{GetMapChannelOptions: func(string) MapChannelOptions {
-				return MapChannelOptions{Mode: MapModeEphemeral, KeyTTL: time.Minute}
+				return MapChannelOptions{Mode: MapModeEphemeral, KeyTTL: time.Hour, MinPageSize: 1, DefaultPageSize: 2}
 			}}}
 		w, err := vfNewWorld(cfg, nil)
 		if err != nil {
@@ -239,6 +254,46 @@ func vfC37Run(t *testing.T, cs vfC37Case, out *vfC37Out, isKnown func(string) bo
 			cb(SubscribeReply{Options: SubscribeOptions{Type: e.Type}}, nil)
 		}
 
+		for i, ch := range cs.Chans {
+			for k := 0; k < ch.Keys; k++ {
+				if _, err := w.node.MapPublish(context.Background(), names[i], fmt.Sprintf("k%d", k), MapPublishOptions{Data: []byte(`{"v":1}`)}); err != nil {
+					return "infra: map publish: " + err.Error()
+				}
+			}
+		}
+		for i, ch := range cs.Chans {
+			if ch.Keys > 0 {
+				r, err := w.node.MapStateRead(context.Background(), names[i], MapReadStateOptions{Limit: 1})
+				if err != nil || len(r.Publications) != 1 || (ch.Keys > 1) != (r.Cursor != "") {
+					return fmt.Sprintf("infra: map state of %q after %d publishes: err=%v pubs=%d cursor=%q", names[i], ch.Keys, err, len(r.Publications), r.Cursor)
+				}
+			}
+		}
+		// paging: map subscribes that answered a state page with a cursor (they sit in c.mapSubscribing until the last page)
+		paging := map[string]string{}
+		var pagingOrder []string
+		notePage := func(ch string, rep *protocol.Reply) {
+			cur := ""
+			if rep != nil && rep.Error == nil && rep.Subscribe != nil {
+				cur = rep.Subscribe.Cursor
+			}
+			if cur != "" {
+				if _, ok := paging[ch]; !ok {
+					pagingOrder = append(pagingOrder, ch)
+				}
+				paging[ch] = cur
+				return
+			}
+			if _, ok := paging[ch]; ok {
+				delete(paging, ch)
+				for i, x := range pagingOrder {
+					if x == ch {
+						pagingOrder = append(pagingOrder[:i:i], pagingOrder[i+1:]...)
+						break
+					}
+				}
+			}
+		}
 		conn := w.NewConn(vfConnCfg{Name: "s", User: "u", Proto: cs.Proto})
 		conn.Connect(nil)
 		vfSettle()
@@ -247,6 +302,7 @@ func vfC37Run(t *testing.T, cs vfC37Case, out *vfC37Out, isKnown func(string) bo
 		// held reads the connection's channel bookkeeping directly.
 		type heldT struct {
 			total     int
+			channels  int // len(c.channels) alone
 			reserved  map[string]bool // in c.channels or c.mapSubscribing
 			committed map[string]bool // flagSubscribed
 		}
@@ -263,6 +319,7 @@ func vfC37Run(t *testing.T, cs vfC37Case, out *vfC37Out, isKnown func(string) bo
 				h.reserved[ch] = true
 			}
 			h.total = len(h.reserved)
+			h.channels = len(client.channels)
 			client.mu.RUnlock()
 			return h
 		}
@@ -360,6 +417,10 @@ func vfC37Run(t *testing.T, cs vfC37Case, out *vfC37Out, isKnown func(string) bo
 				return ""
 			}
 			if p.mp {
+				notePage(p.ch, reps[0])
+				if _, ok := paging[p.ch]; ok {
+					label("map_subscribe_paginating")
+				}
 				// The map path reserves its slot only now.
 				if before.total >= cs.Limit && !before.reserved[p.ch] {
 					label("map_callback_at_limit")
@@ -385,6 +446,29 @@ func vfC37Run(t *testing.T, cs vfC37Case, out *vfC37Out, isKnown func(string) bo
 			return ""
 		}
 
+		// pageNext asks for the next state page of a paginating map subscribe.
+		pageNext := func(ch, where string) string {
+			id := conn.NextID()
+			curID = id
+			conn.Cmd(&protocol.Command{Id: id, Subscribe: &protocol.SubscribeRequest{Channel: ch, Type: int32(SubscriptionTypeMap), Cursor: paging[ch],
+				Phase: MapPhaseState, Limit: int32(cs.Page)}})
+			vfSettle()
+			if c, _ := closed(); c {
+				return ""
+			}
+			reps := repliesFor(id)
+			if len(reps) != 1 {
+				return fmt.Sprintf("%s: %d replies to page request #%d; frames: %s", where, len(reps), id, frames())
+			}
+			if reps[0].Error != nil {
+				label("map_page_error")
+			} else if reps[0].Subscribe != nil && reps[0].Subscribe.Cursor == "" {
+				label("map_subscribe_live_after_pagination")
+			}
+			notePage(ch, reps[0])
+			return ""
+		}
+
 		attemptsAtLimit := 0
 		for si, s := range cs.Steps {
 			where := fmt.Sprintf("step %d %s", si, s)
@@ -397,6 +481,9 @@ func vfC37Run(t *testing.T, cs vfC37Case, out *vfC37Out, isKnown func(string) bo
 				ch := names[s.Ch]
 				if inflight(ch) {
 					continue // one attempt per channel at a time: racing attempts on the same channel are not this property's subject
+				}
+				if _, ok := paging[ch]; ok && s.Map {
+					continue // a map request for a channel that is mid-pagination is a continuation of it; only page steps continue
 				}
 				h := held()
 				pendingMap := 0
@@ -412,6 +499,10 @@ func vfC37Run(t *testing.T, cs vfC37Case, out *vfC37Out, isKnown func(string) bo
 				req := &protocol.SubscribeRequest{Channel: ch}
 				if s.Map {
 					req.Type = int32(SubscriptionTypeMap)
+					req.Limit = int32(cs.Page)
+					if !s.Live {
+						req.Phase = MapPhaseState // paginate the state first; otherwise a direct-to-live join
+					}
 				}
 				conn.Cmd(&protocol.Command{Id: id, Subscribe: req})
 				vfSettle()
@@ -420,7 +511,7 @@ func vfC37Run(t *testing.T, cs vfC37Case, out *vfC37Out, isKnown func(string) bo
 				reps := repliesFor(id)
 				c, d := closed()
 				runes := utf8.RuneCountInString(ch)
-				if len(parked) > 0 && h.total+pendingMap >= cs.Limit {
+				if (len(parked) > 0 || len(paging) > 0) && h.total+pendingMap >= cs.Limit {
 					out.nontrivial = true
 					label("attempt_at_limit_with_inflight")
 				}
@@ -483,6 +574,14 @@ func vfC37Run(t *testing.T, cs vfC37Case, out *vfC37Out, isKnown func(string) bo
 							return fmt.Sprintf("infra: %s: synchronous subscribe below the limit did not succeed; frames: %s", where, frames())
 						}
 						label("subscribe_ok")
+						if s.Map {
+							notePage(ch, reps[0])
+							if _, ok := paging[ch]; ok {
+								label("map_subscribe_paginating")
+							} else {
+								label(fmt.Sprintf("map_subscribe_single_page_keys%d_state%d", cs.Chans[s.Ch].Keys, len(reps[0].Subscribe.State)))
+							}
+						}
 					}
 				}
 			case 1:
@@ -502,7 +601,7 @@ func vfC37Run(t *testing.T, cs vfC37Case, out *vfC37Out, isKnown func(string) bo
 					continue
 				}
 				h := held()
-				if len(parked) > 0 && h.total >= cs.Limit {
+				if (len(parked) > 0 || len(paging) > 0) && h.total >= cs.Limit {
 					out.nontrivial = true
 					label("attempt_at_limit_with_inflight")
 				}
@@ -517,6 +616,17 @@ func vfC37Run(t *testing.T, cs vfC37Case, out *vfC37Out, isKnown func(string) bo
 					label("server_sub_already_held")
 				case h.total >= cs.Limit:
 					label("server_attempt_at_limit")
+					if !c && h.channels < cs.Limit {
+						// only map subscribes that are still loading (c.mapSubscribing) fill the connection
+						key := "C37:server-side-subscribe-limit-ignores-loading-map-subscriptions"
+						if isKnown(key) {
+							out.known = append(out.known, key)
+							out.knownEx = fmt.Sprintf("limit=%d: %d channels held of which %d are map subscribes still paginating; Client.Subscribe(%q) accepted", cs.Limit, h.total, h.total-h.channels, ch)
+							return ""
+						}
+						return fmt.Sprintf("[%s] %s: %d channels held (limit %d, %d of them map subscribes still loading): server-side subscribe must disconnect with %d but was accepted; frames: %s",
+							key, where, h.total, cs.Limit, h.total-h.channels, DisconnectChannelLimit.Code, frames())
+					}
 					if !c || d.Code != DisconnectChannelLimit.Code {
 						return fmt.Sprintf("%s: %d channels held (limit %d): server-side subscribe must disconnect with %d; closed=%v code=%d err=%v; frames: %s", where,
 							h.total, cs.Limit, DisconnectChannelLimit.Code, c, d.Code, serr, frames())
@@ -533,6 +643,9 @@ func vfC37Run(t *testing.T, cs vfC37Case, out *vfC37Out, isKnown func(string) bo
 				if inflight(ch) {
 					continue
 				}
+				if _, ok := paging[ch]; ok {
+					continue // an unsubscribe waits (5 s, then server error) for a map subscribe that is still loading
+				}
 				if s.Kind == 3 {
 					conn.Cmd(&protocol.Command{Id: conn.NextID(), Unsubscribe: &protocol.UnsubscribeRequest{Channel: ch}})
 				} else {
@@ -543,6 +656,13 @@ func vfC37Run(t *testing.T, cs vfC37Case, out *vfC37Out, isKnown func(string) bo
 					return fmt.Sprintf("%s: channel %q still held after unsubscribe", where, ch)
 				}
 				label("unsubscribed")
+			case 6:
+				if len(pagingOrder) == 0 {
+					continue
+				}
+				if m := pageNext(pagingOrder[s.Idx%len(pagingOrder)], where); m != "" {
+					return m
+				}
 			case 5:
 				// No subscribe may be in flight during a burst: a slow close would wait 5 s (virtual) per reservation while
 				// further close() attempts block on connectMu, which a synctest bubble cannot wait out.
@@ -598,6 +718,19 @@ func vfC37Run(t *testing.T, cs vfC37Case, out *vfC37Out, isKnown func(string) bo
 				if m == "KNOWN" {
 					return ""
 				}
+				return m
+			}
+			if m := invariant(where); m != "" {
+				return m
+			}
+		}
+		// finish every pagination: the subscriptions go live and move from c.mapSubscribing to c.channels
+		for i := 0; len(pagingOrder) > 0 && i < 40; i++ {
+			if c, _ := closed(); c {
+				break
+			}
+			where := fmt.Sprintf("final paging of %q", pagingOrder[0])
+			if m := pageNext(pagingOrder[0], where); m != "" {
 				return m
 			}
 			if m := invariant(where); m != "" {
